@@ -1,5 +1,5 @@
 """C19 — translator of generator FUNCTION BODIES: reads `modulo_counter`, `line`, `fadein`, `fadeout`, `attack`, `adsr`,
-`ones`, `zeros`, `impulse` from the source text of audiolazy/lazy_synth.py of the repo under test with `ast` (nothing is imported from the repo) and
+`ones`, `zeros`, `impulse`, `sinusoid` from the source text of audiolazy/lazy_synth.py of the repo under test with `ast` (nothing is imported from the repo) and
 writes them as Lean definitions over the number operations `NumOps` in the vocabulary of `lean/ALV/Model/C19Src.lean`
 (`forG`, `whileG`, `rangeG`, `takeRun`, `runPre`, `Iter.pre`, `post`, `modChain`, `nextOr`, `finiteG`) into
 `lean/ALV/Gen/C19Src.lean`.  `Props/C19.lean` proves `src_<f>_is_model`: each regenerated definition equals the code
@@ -15,6 +15,9 @@ The Python subset understood (anything else in a chosen function raises Translat
     if C then A else B`; `yield E` at function level (a one sample segment); what follows an endless
     `while True: yield E` in a sequence is never run and is not translated (the fall-through of `ones` / `zeros`);
     parameters that are items of any type (`one`, `zero` of impulse: only yielded)
+  * `for v in g(args, kw=args): yield f(v)` with g a translated generator function and f a module level function that
+    becomes a parameter of the Lean definition (`sin`); the expression `2 * pi`, written exactly so, becomes the
+    parameter `twoPi`
   * `if isinstance(x, Iterable): .. else: ..`, `if C: .. else: ..`, `it = iter(x)`, `it = None`,
     `try: x = next(it) / except StopIteration: return`, `if it is None: .. else: ..`
   * loops `for v[, v..] in xzip(l, ..) / l / xrange(k)` and `while True` whose body holds exactly one `yield`, not nested
@@ -38,14 +41,19 @@ PARAMS = {
     "ones": [("dur", "optnum")],
     "zeros": [("dur", "optnum")],
     "impulse": [("dur", "optnum"), ("one", "item"), ("zero", "item")],
+    "sinusoid": [("freq", "arg"), ("phase", "arg")],
 }
-ORDER = ["modulo_counter", "line", "fadein", "fadeout", "attack", "adsr", "ones", "zeros", "impulse"]
+ORDER = ["modulo_counter", "line", "fadein", "fadeout", "attack", "adsr", "ones", "zeros", "impulse", "sinusoid"]
 # functions whose items are of any type (the yielded values are parameters): `Run β`
 ITEM_FUNCS = {"impulse"}
+# names of the module that a function uses, as parameters of its Lean definition: `sin` (math.sin, any function of the
+# samples) and `twoPi`, the value of the expression `2 * pi` (part of the trusted vocabulary mapping)
+EXTERNALS = {"sinusoid": [("sin", "fn"), ("twoPi", "num")]}
+BETA_FUNCS = ITEM_FUNCS | {"sinusoid"}
 SHORT = {"modulo_counter": "mc", "attack": "attack", "line": "line", "adsr": "adsr"}
 TAG = {"start": "P", "modulo": "M", "step": "S", "s": "S"}
 LEAN_TY = {"num": "α", "int": "Int", "bool": "Bool", "arg": "Arg α", "list": "List α", "optlist": "Option (List α)",
-           "optnum": "Option α", "item": "β"}
+           "optnum": "Option α", "item": "β", "fn": "α → β"}
 RESERVED = {"end", "begin", "from", "fun", "at", "do", "then", "else", "if", "let", "in", "open", "show", "have", "o",
             "nreads", "match", "with", "def", "where", "by", "Type", "instance", "structure", "import", "namespace"}
 FUEL = "nreads"
@@ -54,7 +62,6 @@ NOT_TRANSLATED = {
     "TableLookup.__call__ / __getitem__ / operators / harmonize / normalize": "methods on an object with attributes and "
         "list indexing with negative indices: outside the subset (hand models `tableCallG`, `lookupAtG`, `tableGetItem`, "
         "Model/C19Obj)",
-    "sinusoid": "one line over modulo_counter and `sin`; hand model `sinusoid`",
     "karplus_strong": "built from filter objects of lazy_filters (C04/C12 territory)",
     "resample (lazy_poly.py)": "deque / Stream.take / lagrange: outside the subset (hand model `resample`, refinement proved)",
 }
@@ -112,6 +119,10 @@ class Fn:
             if node.id not in env:
                 bad(node, "unknown name %r" % node.id)
             return [], lname(node.id), env[node.id]
+        if isinstance(node, ast.BinOp) and isinstance(node.op, ast.Mult) and isinstance(node.left, ast.Constant) \
+                and type(node.left.value) is int and node.left.value == 2 and isinstance(node.right, ast.Name) \
+                and node.right.id == "pi" and env.get("twoPi") == "num" and "pi" not in env:
+            return [], "twoPi", "num"          # the expression `2 * pi`, written exactly so
         if isinstance(node, ast.UnaryOp) and isinstance(node.op, ast.USub):
             b, t, ty = self.expr(node.operand, env)
             if ty == "int":
@@ -362,6 +373,11 @@ class Fn:
             env2 = self.define(env, x, "num")
             return (["%snextOr %s ([], none) fun %s %s =>" % (ind, lname(it), lname(x), lname(it))]
                     + self.block(rest, env2, path, ind))
+        if isinstance(st, ast.For) and isinstance(st.iter, ast.Call) and isinstance(st.iter.func, ast.Name) \
+                and st.iter.func.id in self.sigs:
+            if rest:
+                bad(rest[0], "statements after a loop over a generator")
+            return self.map_loop(st, env, ind)
         if isinstance(st, (ast.For, ast.While)):
             if rest:
                 bad(rest[0], "statements after a stateful loop")
@@ -390,6 +406,48 @@ class Fn:
                 bad(node, "argument %r: %s given, %s needed" % (p, ty, kind))
             args.append(t)
         return "ALV.Gen.C19.%s o %s %s" % (node.func.id, " ".join(args), FUEL)
+
+    def map_loop(self, st, env, ind):
+        """`for v in g(args): yield f(v)` with g a translated generator function, f a function parameter: the outputs of
+        g through f, the exception of g (if any) after them"""
+        if st.orelse or not (isinstance(st.target, ast.Name) and self.single_yield(st)):
+            bad(st, "loop over a generator outside the subset")
+        v, y = st.target.id, st.body[0].value.value
+        if not (isinstance(y, ast.Call) and isinstance(y.func, ast.Name) and env.get(y.func.id) == "fn" and not y.keywords
+                and len(y.args) == 1 and isinstance(y.args[0], ast.Name) and y.args[0].id == v and v not in env):
+            bad(st, "the body of a loop over a generator must be `yield f(v)`")
+        call = st.iter
+        g = call.func.id
+        if ORDER.index(g) >= ORDER.index(self.name) or g in BETA_FUNCS:
+            bad(st, "loop over a generator that is not translated before this function")
+        sig = self.sigs[g]
+        given = {}
+        for i, a in enumerate(call.args):
+            if i >= len(sig):
+                bad(call, "too many arguments")
+            given[sig[i][0]] = a
+        for kw in call.keywords:
+            if kw.arg is None or kw.arg not in [p for p, _, _ in sig] or kw.arg in given:
+                bad(call, "keyword argument %r" % kw.arg)
+            given[kw.arg] = kw.value
+        args = []
+        for p, kind, dflt in sig:
+            a = given.get(p, dflt)
+            if a is None:
+                bad(call, "missing argument %r" % p)
+            if kind == "arg" and isinstance(a, ast.Name) and env.get(a.id) == "arg" and p in given:
+                args.append(lname(a.id))
+                continue
+            t, ty = self.pure(a, env if p in given else {})
+            if kind == "arg":
+                args.append("(.strm %s)" % t if ty == "list" else "(.num %s)" % self.num(t, ty, a))
+            elif kind == "num":
+                args.append(self.num(t, ty, a))
+            elif kind == ty:
+                args.append(t)
+            else:
+                bad(call, "argument %r: %s given, %s needed" % (p, ty, kind))
+        return ["%smapOut %s (ALV.Gen.C19.%s o %s %s)" % (ind, lname(y.func.id), g, " ".join(args), FUEL)]
 
     # ---- list segments ------------------------------------------------------------------------------------
     def single_yield(self, st):
@@ -641,13 +699,16 @@ def translate(text):
             body = body[1:]
         tr = Fn(f, sigs)
         env = {}
+        for p, kind in EXTERNALS.get(f, []):
+            env = tr.define(env, p, kind)
         for p, kind, _ in sigs[f]:
             env = tr.define(env, p, kind)
         lines = tr.block(body, env, "", "  ")
         for b in tr.bodies:
             out += [b, ""]
-        params = " ".join("(%s : %s)" % (lname(p), LEAN_TY[kind]) for p, kind, _ in sigs[f])
-        if f in ITEM_FUNCS:
+        params = " ".join("(%s : %s)" % (lname(p), LEAN_TY[kind])
+                          for p, kind in EXTERNALS.get(f, []) + [(p, kind) for p, kind, _ in sigs[f]])
+        if f in BETA_FUNCS:
             out += ["def %s {β : Type} (o : NumOps α) %s (%s : Nat) : Run β :=" % (f, params, FUEL)] + lines + [""]
         else:
             out += ["def %s (o : NumOps α) %s (%s : Nat) : Run α :=" % (f, params, FUEL)] + lines + [""]
@@ -712,6 +773,11 @@ EDITS = [
      "  if dur is None or (isinf(dur) and dur > 0):\n    yield one", "  if dur is None or isinf(dur):\n    yield one"),
     ("impulse: swap-comparison dur >= .5 -> dur > .5", "  elif dur >= .5:", "  elif dur > .5:"),
     ("impulse: constant int(dur - .5) -> int(dur + .5)", "num_samples = int(dur - .5)", "num_samples = int(dur + .5)"),
+    ("sinusoid: phase and frequency swapped", "modulo_counter(start=phase, modulo=2 * pi, step=freq)",
+     "modulo_counter(start=freq, modulo=2 * pi, step=phase)"),
+    ("sinusoid: modulo pi", "modulo_counter(start=phase, modulo=2 * pi, step=freq)",
+     "modulo_counter(start=phase, modulo=pi, step=freq)"),
+    ("sinusoid: the counter itself is yielded", "    yield sin(n)", "    yield n"),
     ("impulse: the one is yielded after the zeros (reorder)", "    yield one\n    for x in xrange(num_samples):\n      yield zero",
      "    for x in xrange(num_samples):\n      yield zero\n    yield one"),
 ]
